@@ -15,7 +15,7 @@ RULE = ("pull of device files (sizes 0 .. multi-MiB) whose reply the simulator c
         "style, split style | cut offset, frag, dest, callback) signatures")
 ASSUMPTIONS = ["with a progress callback pull first stats the file on a nested stream; its size is what the callback reports as total"]
 SHARDS = {"quick": 8, "thorough": 16}
-TIME_BUDGET = {"quick": 60, "thorough": 600}
+TIME_BUDGET = {"quick": 300, "thorough": 1800}
 FLOORS = {"quick": {"pulls": 600, "bytes_compared": 1000000, "cut_offsets": 300, "distinct": 200}, "thorough": {"pulls": 8000, "cut_offsets": 4000}}
 
 
